@@ -56,30 +56,99 @@ partial def exprLeafCount : Expr → Nat
   | .multi2 _ a _ b _ => exprLeafCount a + exprLeafCount b
   | .multi3 _ a _ b _ c _ => exprLeafCount a + exprLeafCount b + exprLeafCount c
 
-/-- known-finding class (DESIGN.md L10): the shared property tree has at least three values of
-    which at least two become private — the first removal may collapse the tree's root by
-    copying, after which further removals edit a detached copy and the values stay shared -/
+/-! ### when does the open finding "removal after root collapse" strike?
+
+`RemoveNodeFromTree` replaces a removed leaf's parent by the leaf's sibling. When that parent is
+the root of the property tree it copies the sibling *into* the root node (`*parent = *sibling`)
+without re-pointing the `Parent` of the sibling's children: they keep pointing at the detached
+original. A later removal that goes through such a stale pointer (the leaf's own parent, or its
+grandparent) edits the detached copy; the value stays in the shared tree. The simulation below
+replays the removals in the code's order on an index-based copy of the tree and reports whether a
+removal ever goes through a stale pointer. -/
+
+structure SimNode where
+  left : Option Nat := none
+  right : Option Nat := none
+  parent : Option Nat := none
+  deriving Inhabited
+
+/-- flatten a property tree into indexed nodes; returns (nodes, index of the root, leaf index by path) -/
+partial def simBuild (n : PNode) (path : List Bool) (parent : Option Nat) (acc : Array SimNode × List (List Bool × Nat)) :
+    (Array SimNode × List (List Bool × Nat)) × Nat :=
+  let (nodes, leaves) := acc
+  let me := nodes.size
+  match n with
+  | .comb _ _ _ _ _ l r =>
+    let nodes := nodes.push { parent := parent }
+    let ((nodes, leaves), li) := simBuild l (path ++ [false]) (some me) (nodes, leaves)
+    let ((nodes, leaves), ri) := simBuild r (path ++ [true]) (some me) (nodes, leaves)
+    let nodes := nodes.set! me { left := some li, right := some ri, parent := parent }
+    ((nodes, leaves), me)
+  | _ => ((nodes.push { parent := parent }, leaves ++ [(path, me)]), me)
+
+/-- replay the removals (leaf indices, in order); `true` = some removal went through a stale pointer -/
+def simRemovals (nodes0 : Array SimNode) (root0 : Nat) (targets : List Nat) : Bool := Id.run do
+  let mut nodes := nodes0
+  let mut stale : List Nat := []
+  let mut removed : List Nat := []
+  let mut root := root0
+  for x in targets do
+    if removed.contains x then continue
+    removed := x :: removed
+    match nodes[x]!.parent with
+    | none => pure ()                         -- the tree was this single value
+    | some p =>
+      if stale.contains x || (p ≠ root && stale.contains p) then return true
+      let pn := nodes[p]!
+      let sib := if pn.left = some x then pn.right else pn.left
+      match sib with
+      | none => pure ()
+      | some s =>
+        if p = root then
+          -- root collapse by copying: the root node takes over the sibling's children, whose
+          -- Parent still points at the (now detached) sibling
+          let sn := nodes[s]!
+          nodes := nodes.set! p { left := sn.left, right := sn.right, parent := none }
+          for c in [sn.left, sn.right] do
+            match c with
+            | some ci => stale := ci :: stale
+            | none => pure ()
+          -- a leaf sibling: its path now ends at the root node
+          if sn.left.isNone then
+            -- later removals address this value by its old index `s`; it lives in the root now
+            nodes := nodes.set! s { parent := none }
+            root := p
+        else
+          match pn.parent with
+          | none => pure ()
+          | some g =>
+            let gn := nodes[g]!
+            nodes := nodes.set! g (if gn.left = some p then { gn with left := some s } else { gn with right := some s })
+            nodes := nodes.set! s { (nodes[s]!) with parent := some g }
+  return false
+
+/-- does linking the private properties of (component field, property field) hit the finding? -/
+def collapseDefect (comp prop : PNode) : Bool :=
+  let srcs := (leavesOf comp).filter (fun v => v.esfx.isSome && v.esfx ≠ some [])
+  let tgts := (leavesOf prop).filter (fun v => v.esfx.isSome && v.esfx ≠ some [])
+  let ((nodes, leaves), root) := simBuild prop [] none (#[], [])
+  let order := srcs.flatMap fun s =>
+    (tgts.filter (fun t => t.esfx.map suffixHead = s.esfx.map suffixHead)).filterMap fun t =>
+      (leaves.find? (fun p => p.1 = t.path)).map (·.2)
+  simRemovals nodes root order
+
+/-- known-finding class (DESIGN.md L10), decided by replaying the removals -/
 def kfC16 (s : Stmt) : String :=
-  -- nested property statements count as one value of the (complex) property tree; the simple
-  -- and the complex property tree are separate trees, so they are counted separately
-  let nst := s.parts.filterMap fun p => match p with | .nested h _ => some (h, Expr.leaf []) | _ => none
-  let cnt := fun (anns : List (Hdr × Expr)) =>
-    let isProp := fun (h : Hdr) => h.sym.isProperty || h.sym.name = str "Cex"
-    let compSfx := ((s.parts.filterMap fun p => match p with | .ann h _ _ => some h | _ => none).filter (fun h => !isProp h)).filterMap (fun h => h.sfx)
-    let props := anns.filter (fun a => isProp a.1)
-    let total := (props.map (fun a => exprLeafCount a.2)).foldl (· + ·) 0
-    let matched := ((props.filter fun a => (match a.1.sfx with | some x => compSfx.contains x | none => false)).map
-      (fun a => exprLeafCount a.2)).foldl (· + ·) 0
-    decide (total ≥ 3 && matched ≥ 2)
-  if cnt nst then "C16-removal-after-root-collapse" else
-  let anns := s.parts.filterMap fun p => match p with | .ann h _ e => some (h, e) | _ => none
-  let isProp := fun (h : Hdr) => h.sym.isProperty || h.sym.name = str "Cex"
-  let compSfx := (anns.filter (fun a => !isProp a.1)).filterMap (fun a => a.1.sfx)
-  let props := anns.filter (fun a => isProp a.1)
-  let total := (props.map (fun a => exprLeafCount a.2)).foldl (· + ·) 0
-  let matched := ((props.filter fun a => (match a.1.sfx with | some x => compSfx.contains x | none => false)).map
-    (fun a => exprLeafCount a.2)).foldl (· + ·) 0
-  if total ≥ 3 && matched ≥ 2 then "C16-removal-after-root-collapse" else ""
+  match denoteTop s with
+  | .stmt _ fs =>
+    let hit := privatePairs.any fun (c, p1, p2) =>
+      match fieldOf fs c with
+      | none => false
+      | some cn =>
+        (match fieldOf fs p1 with | some pn => collapseDefect cn pn | none => false) ||
+        (match fieldOf fs p2 with | some pn => collapseDefect cn pn | none => false)
+    if hit then "C16-removal-after-root-collapse" else ""
+  | _ => ""
 
 def genC16Cases (tier : String) (seed : Nat) : Array Case := Id.run do
   let n := if tier = "thorough" then 4000 else 300
